@@ -3,6 +3,7 @@
 import json,glob,os,re
 rows=[]
 notes={
+ 'C12b-record-helper-index-loop':'first run alarmed (the moved loop carried an `unroll 2` contract, which has to be adopted when the helper is entered): corrected, now clean',
  'C16-cutprefix-helpers':'first run alarmed (strings.CutPrefix havocked): specs added, now clean',
  'C06-dispatch-action-helper':'first run alarmed (range loop rewritten as counting loop: idx unknown, no bound): engine corrected, now clean',
  'C01-onrecv-helpers':'first run alarmed in C03 (declared swallow moved into a helper): swallows now cover inlined helpers, now clean',
